@@ -103,6 +103,7 @@ def run(prog: Program, rep: Report, tier: str):
     fields_call = ("call", ("ref", "dataclasses.fields"), (CLS,), ())
     ok_slots = bool(slots)
     own_excluded = True
+    own_only = True
     for e in slots:
         v = e[3]
         comps = [s for s in T.walk(v) if s[0] == "comp"]
@@ -110,8 +111,17 @@ def run(prog: Program, rep: Report, tier: str):
             ok_slots = False
             continue
         c = comps[0]
+        # (`if a and b` is two conditions)
+        flat = []
+        for cd in c[4]:
+            flat += list(cd[2]) if cd[0] == "boolop" and cd[1] == "and" else [cd]
+        c0 = c
+        c = (c[0], c[1], c[2], c[3], tuple(flat))
         src = c[3][0][0]
         from_fields = T.contains(src, lambda s: s == fields_call)
+        # only what the class itself declares: a field inherited from a base *without* __slots__ lives in the __dict__ that base
+        # brings along; a slot for it here would shadow the base's class attributes (its defaults)
+        own_only = own_only and any(cd[0] == "cmp" and cd[1] == "in" and cd[2] == c[2] and T.contains(cd[3], lambda s: s == ("const", "__annotations__") or (s[0] == "attr" and s[2] == "__annotations__")) for cd in c[4])
         # the per-class __slots__ are flattened into one collection of names: set().union(*…), itertools.chain, or a nested comprehension
         flat = lambda s: (s[0] == "call" and s[1][0] == "attr" and s[1][2] == "union") or T.is_call_to(s, "itertools.chain.from_iterable", "itertools.chain") or (s[0] == "comp" and len(s[3]) >= 2)  # noqa: E731
         filt = any(cd[0] == "cmp" and cd[1] == "notin" and cd[2] == c[2] and T.contains(cd[3], flat) for cd in c[4])
@@ -125,11 +135,12 @@ def run(prog: Program, rep: Report, tier: str):
         own_excluded = own_excluded and sliced and not unsliced
         # nothing reaches the tuple unfiltered: no other element next to the filtered comprehension, and the sequence
         # it is built from is not extended afterwards
-        unfiltered = [x for x in (v[1] if v[0] in ("tuple", "list") else ()) if not (x[0] == "star" and x[1] == c) and x != c]
-        grown = [ev2 for pth in rets for ev2 in pth.events if ev2[0] == "eval" and ev2[1][0] == "call" and ev2[1][1][0] == "attr" and ev2[1][1][2] in ("append", "extend", "insert", "__iadd__") and ev2[1][1][1] == c]
+        unfiltered = [x for x in (v[1] if v[0] in ("tuple", "list") else ()) if not (x[0] == "star" and x[1] == c0) and x != c0]
+        grown = [ev2 for pth in rets for ev2 in pth.events if ev2[0] == "eval" and ev2[1][0] == "call" and ev2[1][1][0] == "attr" and ev2[1][1][2] in ("append", "extend", "insert", "__iadd__") and ev2[1][1][1] == c0]
         if unfiltered or grown:
             ok_slots = False
     rep.check(ok_slots, "R19.2", q, f.loc, "__slots__ are the dataclass field names not already slotted by a base", "__slots__ are not `fields(cls)` names minus the union of the __slots__ of *every* ancestor (cls.mro()): a slot re-declared from a grandparent is duplicated, or type() raises", detail="slots")
+    rep.check(own_only and bool(slots), "R19.2", q, f.loc, "only the fields the class itself declares get a slot", "every dataclass field gets a slot unless a base *slots* it: for a child of a plain (unslotted) dataclass the inherited fields are slotted again -- slotted(Child).__slots__ == ('a', 'tag', 'b') instead of ('b',) -- and the new descriptors shadow the base's class attributes: a base field(default='base', init=False) makes repr(Slotted()) raise AttributeError", detail="slots-declared-here")
     rep.check(own_excluded and bool(slots), "R19.2", q, f.loc, "only proper ancestors count as providers of inherited slots (mro()[1:])", "the class's own __slots__ are counted as inherited (the whole mro(), the class included, is searched): for a dataclass that is already slotted -- dataclass(slots=True), or slotted() applied twice -- no field gets a slot and no instance can be built (AttributeError: object has no attribute 'x')", detail="slots-own")
     # names come from f.name of dataclasses.fields(cls)
     fn = None
